@@ -16,7 +16,7 @@ claim(
 claim(
     "C07",
     "other",
-    "Decides the continue-predicate of every StoppingCondition subclass exhaustively as a boolean function (full truth table over its comparison leaves and one opaque 'converged' atom, extracted by abstract interpretation of __call__): continue implies t<max_steps, t<min_steps within bounds implies continue, otherwise continue iff not converged; and that the run loop in checkpointed_fdtd is bounded by time_steps_total, starts at 0, uses the set-up condition as cond_fun and the plain forward step as body. The numerical convergence test and state equality with a plain run are not decided.",
+    "Decides the continue-predicate of every StoppingCondition subclass exhaustively as a boolean function (full truth table over its comparison leaves and one opaque 'converged' atom, extracted by abstract interpretation of __call__): continue implies t<max_steps, t<min_steps within bounds implies continue, otherwise continue iff not converged; and that the run loop in checkpointed_fdtd is bounded by time_steps_total, starts at 0, uses the set-up condition as cond_fun and the plain forward step as body. What the conditions measure: the energy threshold sums compute_energy(E, H, inverse permittivity, inverse permeability) in that order; the convergence test transforms the sample-wise mean of the prev_periods periods [t - (k+1) spp, t - spp) and the last period [t - spp, t) of the detector trace (five settings, every reading a free symbol). The spectra / norm arithmetic and state equality with a plain run are not decided.",
     TB + "; model of eqxi.while_loop as a recorded call; model of lax.cond as select",
     "abstract interpretation of __call__ to a boolean formula + exhaustive truth-table comparison; recorded-call extraction of the loop",
     "DESIGN.md §5 C07",
@@ -25,7 +25,7 @@ claim(
 claim(
     "C29",
     "other",
-    "Decides the overlap predicate for every integer input: check_overlap only compares the eight slice endpoints (checked by a dataflow scan), so evaluating it on one representative of each of the 13^3 combinations of per-axis order types (Allen relations) is exhaustive; oracle: a true 3-D half-open intersection must yield True. Also decides that place_objects applies an object iff no device overlaps it and apply_params re-applies iff one does (same receiver/argument orientation), after the device loop and against the current material arrays. What apply() computes is not decided.",
+    "Decides the overlap predicate for every integer input: check_overlap only compares the eight slice endpoints (checked by a dataflow scan), so evaluating it on one representative of each of the 13^3 combinations of per-axis order types (Allen relations) is exhaustive; oracle: a true 3-D half-open intersection must yield True. Also decides that place_objects applies an object iff no device overlaps it and apply_params re-applies iff one does (same receiver/argument orientation), after the device loop and against the current material arrays. Behaviourally: apply_params interpreted end to end with two devices and three other objects re-applies exactly those overlapping some device (the first as well as the last), once each, and every material-state argument (incl. the c4 coefficients when allocated) is the array the function returns. What apply() computes is not decided.",
     TB + "; exhaustiveness rests on the comparison-only dataflow check",
     "finite order-type (region) enumeration by abstract interpretation + syntax-tree rules on the two call sites",
     "DESIGN.md §5 C29",
@@ -52,7 +52,7 @@ claim(
 claim(
     "C23",
     "other",
-    "Decides structural necessary conditions of 'keeps exactly the connected material': the dilation kernels are the 6-connectivity cross in all three planes, each plane dilation is masked by the material (complement for air) so the front cannot leave it, the seed is the bottom layer, the final selection equals material AND connected on its whole truth table and is mapped back to material indices for both background positions, and the flood-fill loop either iterates to a fixpoint or has a trip count of total degree 3 in the grid dimensions (anything lower cuts serpentine paths short; the trip-count expression is extracted symbolically). Outcomes of connect_holes_and_structures on particular designs are not decided.",
+    "Decides structural necessary conditions of 'keeps exactly the connected material': the dilation kernels are the 6-connectivity cross in all three planes, each plane dilation is masked by the material (complement for air) so the front cannot leave it, the seed is the bottom layer, the final selection equals material AND connected on its whole truth table and is mapped back to material indices for both background positions, and the flood-fill loop either iterates to a fixpoint or has a trip count of total degree 3 in the grid dimensions (anything lower cuts serpentine paths short; the trip-count expression is extracted symbolically). The air fill starts from exactly the air cells of the four side faces and the top (three concrete designs), and the fixpoint loop continues exactly while the front differs from the previous one as a set of cells (equal sizes are not convergence). Outcomes of connect_holes_and_structures on particular designs are not decided.",
     TB + "; geodesic-length argument for the iteration bound (a face-connected path in X*Y*Z cells can have Theta(X*Y*Z) length)",
     "abstract interpretation with recorded loop calls; degree domain on the trip count; boolean truth tables",
     "DESIGN.md §5 C23",
@@ -151,7 +151,7 @@ claim(
 claim(
     "C35",
     "proof",
-    "Identities over the reals / Gaussian rationals for all pole parameters, time steps and frequencies: compute_pole_coefficients_per_axis and _tensor (per-axis and oriented rows) interpreted on a pole with symbolic per-axis (w0, g, a, b) return the documented c1..c4 on every accepting path (tensor entries on diagonal slots 4*axis, zero off-diagonal, oriented K dt^2/D u u^T), every path of the guard is enumerated and raises exactly when a coupled axis has w0*dt >= 2; feeding those expressions into susceptibility_from_coefficients gives exactly (a - i w b)/(w0^2 - w^2 - i g w) per axis on the occupied-slot branch, the occupied-slot mask is implied by c3 != 0 or c4 != 0 (full truth table), all-zero slots give 0; Lorentz / Drude / CCPR accessor tables and DispersionModel.susceptibility_axes equal the declared pole forms; the four Jury margin identities hold, so under the guard no recurrence root lies outside the unit circle. The O((w dt)^2) convergence rate is not decided.",
+    "Identities over the reals / Gaussian rationals for all pole parameters, time steps and frequencies: compute_pole_coefficients_per_axis and _tensor (per-axis and oriented rows) interpreted on a pole with symbolic per-axis (w0, g, a, b) return the documented c1..c4 on every accepting path (tensor entries on diagonal slots 4*axis, zero off-diagonal, oriented K dt^2/D u u^T), every path of the guard is enumerated and raises exactly when a coupled axis has w0*dt >= 2; feeding those expressions into susceptibility_from_coefficients gives exactly (a - i w b)/(w0^2 - w^2 - i g w) per axis on the occupied-slot branch, the occupied-slot mask is implied by c3 != 0 or c4 != 0 (full truth table), all-zero slots give 0; Lorentz / Drude / CCPR accessor tables and DispersionModel.susceptibility_axes equal the declared pole forms; the four Jury margin identities hold, so under the guard no recurrence root lies outside the unit circle. compute_allowed_dispersive_coefficients fills row k of every table with the k-th material of the common order (not of the dictionary's insertion order), zero in padded pole slots and for non-dispersive materials. The O((w dt)^2) convergence rate is not decided.",
     TB + "; numpy in-place item assignment model; path enumeration of the guard; real/imag/conj/abs on Gaussian-rational normal forms",
     "abstract interpretation with exhaustive path enumeration of symbolic guards; polynomial identity over Q(i); boolean truth table of the occupied-slot mask",
     "DESIGN.md §5 C35",
@@ -178,7 +178,7 @@ claim(
 claim(
     "C37",
     "other",
-    "Decides the RectilinearGrid helpers by abstract interpretation: coord_to_index is interpreted on one representative of every order type of the coordinate relative to the edges and their midpoints of a generic non-uniform axis (exhaustive for lower / upper, which only compare, and for nearest, which only compares distances): lower = last edge <= c, upper = first edge >= c, nearest = closest edge, first on ties; length_to_cell_count; bounds_for_center / bounds_for_anchor over all sizes, anchor positions and order types of the target: (lower, lower+size) with the closest centre / anchor, invalid sizes rejected. On symbolic edges: axis_extent, centers, anchor_coordinate, cell_volume = dx*dy*dz, face_area = product of the transverse widths in their own layout. CFL: uniform f*s/(c*sqrt 3), general f/(c*sqrt(sum 1/dmin^2)), branches agree on equal spacings, config.time_step_duration per grid policy, courant_number = f/sqrt 3. Uniform detection classifies ten representative grids as documented (narrower / wider cells, other axes, tolerance edge); reduce_symmetric keeps the upper half of symmetric axes and rejects asymmetric widths. numpy float rounding is not decided.",
+    "Decides the RectilinearGrid helpers by abstract interpretation: coord_to_index is interpreted on one representative of every order type of the coordinate relative to the edges and their midpoints of a generic non-uniform axis (exhaustive for lower / upper, which only compare, and for nearest, which only compares distances): lower = last edge <= c, upper = first edge >= c, nearest = closest edge, first on ties; length_to_cell_count; bounds_for_center / bounds_for_anchor over all sizes, anchor positions and order types of the target: (lower, lower+size) with the closest centre / anchor, invalid sizes rejected. On symbolic edges: axis_extent, centers, anchor_coordinate, cell_volume = dx*dy*dz, face_area = product of the transverse widths in their own layout. CFL: uniform f*s/(c*sqrt 3), general f/(c*sqrt(sum 1/dmin^2)), branches agree on equal spacings, config.time_step_duration per grid policy, courant_number = f/sqrt 3. Uniform detection classifies ten representative grids as documented (narrower / wider cells, other axes, tolerance edge); reduce_symmetric keeps the upper half of symmetric axes and rejects asymmetric widths — with numpy's allclose semantics (rtol, atol) modelled, so the verdict is the same at nanometre scale as at unit scale. numpy float rounding is not decided.",
     TB + "; concrete numpy model on exact rationals (searchsorted, argmin first-on-ties, diff, min, max); order-type exhaustiveness argument for comparison-only helpers",
     "abstract interpretation with exhaustive order-type enumeration; polynomial identities (with sqrt normalisation) for the formulas; decision table over representative grids for uniform detection",
     "DESIGN.md §5 C37",
@@ -187,7 +187,7 @@ claim(
 claim(
     "C14",
     "other",
-    "Decides the schedule code by abstract interpretation: is_on_at_time_step over all 128 None-patterns of its optional parameters x period (symbolic values and time) raises exactly on ambiguous / over-specified / period-less windows and otherwise returns the closed-interval predicate start <= t*dt <= end with the documented start and end (a bare duration starts at 0), always-off never on, switch fields forwarded under their own names; calculate_on_list (fixed lists, window, interval) and the chronological index map on representative schedules; is_default_always_on falsified by each declared field; in one forward and one backward solver step a scheduled source's term is multiplied by the indicator of its own switch at the step taken and vanishes when off while an always-on source is ungated; update_detector_states selects update(step) or the previous state on the detector's own on-array and leaves the other time direction untouched; every time-domain detector update writes only row _time_step_to_arr_idx[step] of the state entry of the same name (all layouts), init_state allocates sum(on_list) rows and Detector.place_on_grid builds the chronological index map. Runs of the time loop are not decided.",
+    "Decides the schedule code by abstract interpretation: is_on_at_time_step over all 128 None-patterns of its optional parameters x period (symbolic values and time) raises exactly on ambiguous / over-specified / period-less windows and otherwise returns the closed-interval predicate start <= t*dt <= end with the documented start and end (a bare duration starts at 0), always-off never on, switch fields forwarded under their own names; calculate_on_list (fixed lists, window, interval) and the chronological index map on representative schedules; is_default_always_on falsified by each declared field; in one forward and one backward solver step a scheduled source's term is multiplied by the indicator of its own switch at the step taken and vanishes when off while an always-on source is ungated; update_detector_states selects update(step) or the previous state on the detector's own on-array and leaves the other time direction untouched; every time-domain detector update writes only row _time_step_to_arr_idx[step] of the state entry of the same name (all layouts), init_state allocates sum(on_list) rows and Detector.place_on_grid builds the chronological index map. A detector whose state has no record rows (always-off, empty schedule) is left out of the step: with the gate traced in both branches, as jax does, its update is never reached, nothing raises and the empty state is kept (R14.5). Runs of the time loop are not decided.",
     TB + "; canonical keys of comparison predicates; abstract source model of C02; recording detector state",
     "abstract interpretation with exhaustive None-pattern enumeration and canonical predicate comparison; indicator-algebra gating check on one solver step; recorded-write typestate for detector rows",
     "DESIGN.md §5 C14",
@@ -214,7 +214,7 @@ claim(
 claim(
     "C40",
     "other",
-    "Decides TreeClass.aset together with its path parser and _aset by interpreting the real method on a nested configuration object whose containers are genuine shared-reference lists and dicts, for every existing path up to depth four over attribute / list index (incl. negative) / dict key steps and the create_new_ok cases (new attribute, new key; refused when the flag is off or the missing step is not last). aset depends on the path only through the step kinds and on whether the last step exists, so this is exhaustive for that depth. Per path, against a structural snapshot of the heap taken before the call: the receiver and everything reachable from it are unchanged; the result has the receiver's class and equals the original with exactly that path replaced; every container holding the replaced slot is a fresh copy in the result. The parser accepts the documented syntax and rejects malformed paths. Deeper paths and exotic container types are not decided.",
+    "Decides TreeClass.aset together with its path parser and _aset by interpreting the real method on a nested configuration object whose containers are genuine shared-reference lists and dicts, for every existing path up to depth four over attribute / list index (incl. negative) / dict key steps and the create_new_ok cases (new attribute, new key; refused when the flag is off or the missing step is not last). aset depends on the path only through the step kinds and on whether the last step exists, so this is exhaustive for that depth. Per path, against a structural snapshot of the heap taken before the call: the receiver and everything reachable from it are unchanged; the result has the receiver's class and equals the original with exactly that path replaced; every container holding the replaced slot is a fresh copy in the result. The parser accepts the documented syntax and rejects malformed paths. Creating a missing slot with the value None works like any other value; the same from-the-end path applied in sequence to lists of different lengths addresses the right slot each time (a memoised parser is modelled as one shared parse result per string). Deeper paths and exotic container types are not decided.",
     TB + "; native shared-reference containers in the interpreter heap; model of pytreeclass .at[method](...) as 'run on a shallow copy'",
     "abstract interpretation with a concrete shared-reference heap; before/after heap snapshot comparison and aliasing (ownership) check along the path",
     "DESIGN.md §5 C40",
@@ -223,7 +223,7 @@ claim(
 claim(
     "C43",
     "other",
-    "Narrow on polygons (the point-in-polygon routine is a library call). Decides the rasterisation predicates by abstract interpretation with symbolic grid edges, radii and spacing: for spheres / ellipsoids (all per-axis radius fallbacks) and cylinders along each axis, on the uniform fallback and on a resolved non-uniform grid, the comparison that defines every mask cell is observed as the interpreter makes it and must read sum_axes((cell centre - box centre)/radius_axis)^2 < 1 with a strict <, cell centre (i+1/2)*spacing resp. (e_i+e_{i+1})/2 - e_lower of the object's own slice, box centre half the object's own extent on the same axis, each radius paired with its own axis, cylinders using their two transverse axes and constant along their own. For the extruded polygon the sample coordinates handed to the point-in-polygon routine are those cell centres per axis, vertices are shifted by the box centre, and the 2-D mask is repeated unchanged along the extrusion axis.",
+    "Narrow on polygons (the point-in-polygon routine is a library call). Decides the rasterisation predicates by abstract interpretation with symbolic grid edges, radii and spacing: for spheres / ellipsoids (all per-axis radius fallbacks) and cylinders along each axis, on the uniform fallback and on a resolved non-uniform grid, the comparison that defines every mask cell is observed as the interpreter makes it and must read sum_axes((cell centre - box centre)/radius_axis)^2 < 1 with a strict <, cell centre (i+1/2)*spacing resp. (e_i+e_{i+1})/2 - e_lower of the object's own slice, box centre half the object's own extent on the same axis, each radius paired with its own axis, cylinders using their two transverse axes and constant along their own. For the extruded polygon the sample coordinates handed to the point-in-polygon routine are those cell centres per axis, vertices are shifted by the box centre, and the 2-D mask is repeated unchanged along the extrusion axis. Every documented combination of per-axis radii (any subset given) is rasterised with the given radius on its own axis, never rejected.",
     TB + "; observation of scalar comparisons as they are made (operands extracted); models of meshgrid / stack / expand_dims / repeat; point-in-polygon routine outside the analysis",
     "abstract interpretation with symbolic geometry; operand extraction of the defining comparison and polynomial identity against the centre-inclusion oracle; recorded-call check of the polygon sampler",
     "DESIGN.md §5 C43",
@@ -241,7 +241,7 @@ claim(
 claim(
     "C15",
     "other",
-    "Decides what update_detector_states hands to a detector. The co-location stencil of interpolate_fields on symbolic fields equals the stencil derived from the Yee staggering for the target (i, j, k+1/2) — per axis none / backward pair / forward pair (4,4,1,2,2,8 points), non-uniform backward pairs weighted by the half widths of their own axis with the first cell replicated. The whole path is interpreted on a concrete 5x4x4 grid of free symbolic field entries (current and previous H separate) and symbolic widths, for deep-interior / interior (fast path), face-touching, whole-domain and raw detectors on zero, periodic and electric / magnetic symmetry halos (one and two electric planes), uniform and non-uniform: the E and H arrays received by Detector.update equal entry by entry the stencil values under the halo rule (zero outside; wrap on periodic axes but never into the min halo of a symmetric axis; parity * mirror partner on electric symmetry planes, partner second cell for on-plane components, corners doubly mirrored), H time-centred (H_prev+H)/2 in both interpolating paths and untouched in the raw path, materials restricted to the region. Holds for all field values on that grid.",
+    "Decides what update_detector_states hands to a detector. The co-location stencil of interpolate_fields on symbolic fields equals the stencil derived from the Yee staggering for the target (i, j, k+1/2) — per axis none / backward pair / forward pair (4,4,1,2,2,8 points), non-uniform backward pairs weighted by the half widths of their own axis with the first cell replicated. The whole path is interpreted on a concrete 5x4x4 grid of free symbolic field entries (current and previous H separate) and symbolic widths, for deep-interior / interior (fast path), face-touching, whole-domain and raw detectors on zero, periodic and electric / magnetic symmetry halos (one and two electric planes), uniform and non-uniform: the E and H arrays received by Detector.update equal entry by entry the stencil values under the halo rule (zero outside; wrap on periodic axes but never into the min halo of a symmetric axis; parity * mirror partner on electric symmetry planes, partner second cell for on-plane components, corners doubly mirrored), H time-centred (H_prev+H)/2 in both interpolating paths and untouched in the raw path, materials restricted to the region; on a stretched grid the co-location weight at the first cell of a wrapping axis uses the last cell's width (the neighbouring copy), a replica of the first cell's elsewhere. Holds for all field values on that grid.",
     TB + "; np.pad model on concrete arrays; Yee offsets E_c at +1/2 e_c, H_c at +1/2(1-e_c); parity / on-plane oracles of C32",
     "abstract interpretation over a stencil domain and on a concrete grid of free symbols; entry-wise polynomial identity against a stencil + halo oracle",
     "DESIGN.md §5 C15",
@@ -250,7 +250,7 @@ claim(
 claim(
     "C09",
     "other",
-    "Decides one step of the supercell identity on concrete cells: forward() is interpreted on a concrete cell (3x2x2 and its permutations) and on its supercell (2 or 3 copies per periodic axis; fields tiled with the Bloch phase exp(i k L) per copy, materials and — on a resolved rectilinear grid — cell widths tiled) with every field, material (isotropic, diagonal, full eps / mu tensors) and cell-width entry a free symbol, and the supercell's result must equal the tiled cell's result entry by entry as rational functions (periodic and Bloch faces on one, two or three axes, walls elsewhere). Whole runs follow by induction; round-off is not decided. Also decided is the condition it rests on — every read of a neighbouring cell across a periodic face sees what the adjacent copy of the cell would hold: pad_fields_for_boundaries, interpreted on a concrete 3x2x2 grid of free symbolic entries for every combination of Bloch / terminating axes, k of either sign and k = 0, uniform and resolved grids, yields halo cells equal to the wrapped neighbour times conj(phase) (min side) / phase (max side) with phase = exp(i k_a L_a), products at corners, zero behind terminating faces, interior untouched; needs_complex_fields is true exactly for a non-zero component along the boundary's own axis (negative included); wrap padding is reported exactly on axes with a periodic / Bloch face; inside fdtd/update.py the phase-less pad_fields is called only from pad_fields_for_boundaries and every array handed to a curl / anisotropic averaging routine in the four update functions is a result of pad_fields_for_boundaries.",
+    "Decides one step of the supercell identity on concrete cells: forward() is interpreted on a concrete cell (3x2x2 and its permutations) and on its supercell (2 or 3 copies per periodic axis; fields tiled with the Bloch phase exp(i k L) per copy, materials and — on a resolved rectilinear grid — cell widths tiled) with every field, material (isotropic, diagonal, full eps / mu tensors) and cell-width entry a free symbol, and the supercell's result must equal the tiled cell's result entry by entry as rational functions (periodic and Bloch faces on one, two or three axes, plain truncation elsewhere so that no entry is forced to zero). Whole runs follow by induction; round-off is not decided. Also decided is the condition it rests on — every read of a neighbouring cell across a periodic face sees what the adjacent copy of the cell would hold: pad_fields_for_boundaries, interpreted on a concrete 3x2x2 grid of free symbolic entries for every combination of Bloch / terminating axes, k of either sign and k = 0, uniform and resolved grids, yields halo cells equal to the wrapped neighbour times conj(phase) (min side) / phase (max side) with phase = exp(i k_a L_a), products at corners, zero behind terminating faces, interior untouched; needs_complex_fields is true exactly for a non-zero component along the boundary's own axis (negative included); wrap padding is reported exactly on axes with a periodic / Bloch face; inside fdtd/update.py the phase-less pad_fields is called only from pad_fields_for_boundaries and every array handed to a curl / anisotropic averaging routine in the four update functions is a result of pad_fields_for_boundaries.",
     TB + "; np.pad model on concrete arrays; linalg.solve with an identity left-hand side = right-hand side; syntax-tree def-use of the padded inputs",
     "abstract interpretation of a whole solver step on a concrete cell and on its supercell over free symbols (rational-function identity per entry); supercell-halo oracle; decision tables; who-may-call / def-use rule on the syntax tree",
     "DESIGN.md §5 C09",
@@ -358,7 +358,7 @@ claim(
 claim(
     "C30",
     "other",
-    "The statement quantifies over a finite index domain and arbitrary values; the values are kept symbolic (the record of step t is a free symbol, the buffers start with arbitrary content) and the index domain is covered exhaustively (quick: total steps <= 9, k <= 4; thorough: total steps <= 40, k <= 8; every start step). For each triple the repo's Recorder with LinearReconstructEveryK is initialised by its own init_shapes (interpreted), every step is compressed in order, and for every t >= start decompress(t) equals, as a rational expression, v_t at saved steps and v_p + (t-p)/(q-p)(v_q - v_p) between the enclosing saved steps otherwise; unsaved steps leave every slot untouched; the same through a DtypeConversion + filter pipeline; DtypeConversion casts to its dtype going in (excluded keys untouched) and back to each key's recorded input dtype coming out. Exactness of a particular widening cast is a property of the float formats and is not decided. Two genuine defects found by this rule were fixed (start_recording_after > 0; total steps <= k).",
+    "The statement quantifies over a finite index domain and arbitrary values; the values are kept symbolic (the record of step t is a free symbol, the buffers start with arbitrary content) and the index domain is covered exhaustively (quick: total steps <= 9, k <= 4; thorough: total steps <= 40, k <= 8; every start step). For each triple the repo's Recorder with LinearReconstructEveryK is initialised by its own init_shapes (interpreted), every step is compressed in order, and for every t >= start decompress(t) equals, as a rational expression, v_t at saved steps and v_p + (t-p)/(q-p)(v_q - v_p) between the enclosing saved steps otherwise; unsaved steps leave every slot untouched; the same through a DtypeConversion + filter pipeline; DtypeConversion casts to its dtype going in (excluded keys untouched) and back to each key's recorded input dtype coming out. Exactness of a particular widening cast is a property of the float formats and is not decided. Two genuine defects found by this rule were fixed (start_recording_after > 0; total steps <= k). Chained time filters: Recorder.init_state sizes every time filter by the latent count that reaches it and the storage by the last one; the dtype module's exclusion matches the filter entry anywhere in the key.",
     TB + "; integer table code interpreted on concrete index arrays, recorded values symbolic; lax.cond on a decided predicate takes that branch",
     "abstract interpretation of the recorder pipeline with symbolic record values, exhaustive over the property's finite index domain; rational identity against the interpolation formula",
     "DESIGN.md §6 (moved from not-applicable) / §7",
@@ -376,7 +376,7 @@ claim(
 claim(
     "C25",
     "other",
-    "Narrow: termination and the existence of a valid touch while the loop runs are not decided (an argmax over an empty mask would pick pixel 0). Decided are the premises under which the loop keeps the two colours disjoint and the output has the stated form: BrushConstraint2D._generator, interpreted over a set-algebra domain (arrays as formulas over the touch sets, dilation an opaque monotone operator, each of the five branch paths taken in turn), returns D(T_s*) of the final solid touches, starts from no touches and continues exactly while some pixel is in neither D(T_s) nor D(T_v); on every path no touch is removed, every added touch lies in the validity mask of its colour (not yet a touch, not in D of the other colour's pixels), the single-touch paths return the other colour unchanged, and on the many-touch path added solid touches lie outside D(possible-void U existing-void pixels) while added void touches are among the generators of the possible-void pixels (and symmetrically); dilate_jax is the centred dilation by the brush as given (orientation checked with an asymmetric kernel); circular_brush for eleven diameters has odd size, contains its centre, equals the closed disc and is point-symmetric. With the hand lemma (D monotone; for a point-symmetric brush t not in D(P) iff footprint(t) misses P) these give: D(T_s) and D(T_v) stay disjoint, so on exit solid = D(T_s*) and void = D(T_v*).",
+    "Narrow: termination and the existence of a valid touch while the loop runs are not decided (an argmax over an empty mask would pick pixel 0). Decided are the premises under which the loop keeps the two colours disjoint and the output has the stated form: BrushConstraint2D._generator, interpreted over a set-algebra domain (arrays as formulas over the touch sets, dilation an opaque monotone operator, each of the five branch paths taken in turn), returns D(T_s*) of the final solid touches, starts from no touches and continues exactly while some pixel is in neither D(T_s) nor D(T_v); on every path no touch is removed, every added touch lies in the validity mask of its colour (not yet a touch, not in D of the other colour's pixels), the single-touch paths return the other colour unchanged, and on the many-touch path added solid touches lie outside D(possible-void U existing-void pixels) while added void touches are among the generators of the possible-void pixels (and symmetrically); dilate_jax is the centred dilation by the brush as given (orientation checked with an asymmetric kernel); circular_brush for eleven diameters has odd size, contains its centre, equals the closed disc and is point-symmetric. With the hand lemma (D monotone; for a point-symmetric brush t not in D(P) iff footprint(t) misses P) these give: D(T_s) and D(T_v) stay disjoint, so on exit solid = D(T_s*) and void = D(T_v*). The transform hands the generator no step budget below the number of pixels, whichever axis is the flat one, and returns the generator's result itself (no whole-design shortcut that checks only one colour).",
     TB + "; set algebra with opaque dilation, implications by truth table; lemma on dilation by a point-symmetric brush (DESIGN.md)",
     "abstract interpretation of the loop body over a set-algebra domain with scripted branch enumeration; propositional decision of inclusion obligations; concrete-kernel interpretation of the dilation and of the brush constructor",
     "DESIGN.md §6 (moved from not-applicable)",
@@ -385,7 +385,7 @@ claim(
 claim(
     "C42",
     "other",
-    "Narrow: that XLA's SPMD partitioning preserves values is the trusted base, and reduction-order round-off across partitions is not decided. Decided is that nothing the repository computes depends on the device count: create_named_sharded_matrix, interpreted for 1, 2 and 4 devices against a model of the jax sharding API, returns exactly the requested shape filled with the requested value, shards the requested axis (or the first axis of extent > 1 when that one has extent one) and rejects a non-divisible extent (15 combinations); sharding_preserving_set / _add equal arr.at[index].set / add(values) on one device and on several; init_sharded_dict pads only the leading time axis to the next multiple of the device count with zeros; the device list is read only by the sharding helpers, the recording-buffer allocation and the backend probing of SimulationConfig — nothing in the time loop, sources, detectors, boundaries or parameter transforms reads it.",
+    "Narrow: that XLA's SPMD partitioning preserves values is the trusted base, and reduction-order round-off across partitions is not decided. Decided is that nothing the repository computes depends on the device count: create_named_sharded_matrix, interpreted for 1, 2 and 4 devices against a model of the jax sharding API, returns exactly the requested shape filled with the requested value, shards the requested axis (or the first axis of extent > 1 when that one has extent one) and rejects a non-divisible extent (15 combinations); sharding_preserving_set / _add equal arr.at[index].set / add(values) on one device and on several; init_sharded_dict pads only the leading time axis to the next multiple of the device count with zeros; the device list is read only by the sharding helpers, the recording-buffer allocation and the backend probing of SimulationConfig — nothing in the time loop, sources, detectors, boundaries or parameter transforms reads it. Set and add following one another on arrays of one layout and region in one process each perform their own operation (module-level state is kept across the calls of the sequence).",
     TB + "; XLA SPMD value preservation; model of Mesh / PartitionSpec / NamedSharding index map / make_array_from_single_device_arrays",
     "abstract interpretation of the allocation and update helpers against a model of the sharding API for several device counts; who-may-read rule on the syntax tree",
     "DESIGN.md §6 (moved from not-applicable)",
